@@ -51,7 +51,7 @@ func yamlGoValue(r *rand.Rand) (any, string) {
 func checkC18(c *vkit.Ctx) {
 	c.P.Rule = "three sub-workloads: (a) valid YAML text (multi-document streams, block scalars containing `---` / `/-/-/-/`, comments, anchors, flow sequences that look like entry headers, with/without final newline, trailing blank lines) passed as string or []byte to MatchYAML without matchers into a file that already holds a neighbour entry: the body found by the independent reader must equal the input with whole `---` lines escaped, byte for byte, and a replay in a fresh simulated process must pass without writing; (b) marshalable Go values (maps with >=3 keys, nested tagged structs, slices, maps of maps) recorded 50 times in fresh slots across simulated process restarts: all texts equal; (c) invalid YAML in four modes over missing/existing slots: exactly one Error, digest unchanged; non-trivial = document carrying >=1 hostile YAML class, any Go value, any invalid document; distinct by hash(input, form)"
 	c.P.Assumptions = []string{"goccy/go-yaml's decoder decides which generated texts are valid YAML"}
-	n := c.N(5000, 200000)
+	n := c.N(40000, 1000000)
 	for i := 0; i < n; i++ {
 		if !c.Mine(i) {
 			continue
@@ -128,6 +128,45 @@ func c18Verbatim(c *vkit.Ctx, r *rand.Rand, i int) {
 		}
 		c.Violate("yaml-replay-failed", "", fmt.Sprintf("mode %+v: outcome %s %s %s", mode, res.Got, firstErr(res.Signals), d), in)
 		return
+	}
+	// update: another document replaces it, again verbatim, and replays
+	cl2 := vkit.Classes{}
+	text2 := vkit.YAMLDoc(r, []string{"[TestY - 1]", "[TestN - 1]"}, cl2)
+	if yamlValid(text2) && text2 != text {
+		tr := true
+		op2 := Op{API: "yaml", Test: "TestY", File: "y", Upd: &tr, Val: Val{Kind: "yaml", S: text2, Form: pick2(r, "string", "bytes")}}
+		s.NewProcess(vkit.Mode{}, r.IntN(2) == 0)
+		t = vkit.NewT("TestY")
+		res = s.Step(t, op2, vkit.Mode{})
+		s.EndExec(t)
+		c.Count("verbatim_updates", 1)
+		in["updated_to"] = text2
+		if res.Got != vkit.Updated && !(res.Got == vkit.Passed && vkit.Unescape(text) == vkit.Unescape(text2)) {
+			c.Violate("yaml-update-outcome", "", fmt.Sprintf("outcome %s: %s", res.Got, firstErr(res.Signals)), in)
+			return
+		}
+		if res.Got == vkit.Updated {
+			ents, torn = vkit.ReadSnapFile(path)
+			idx = vkit.FindEntries(ents, "TestY - 1")
+			if len(torn) > 0 || len(idx) != 1 || ents[idx[0]].Body != vkit.Escape(text2) {
+				got := ""
+				if len(idx) == 1 {
+					got = ents[idx[0]].Body
+				}
+				c.Violate("yaml-update-not-stored-verbatim", "", fmt.Sprintf("after update: torn=%v entries=%v stored %s, input (escaped) %s", torn, ids(ents), vkit.Q(got), vkit.Q(vkit.Escape(text2))), in)
+				return
+			}
+			f := false
+			op2.Upd = &f
+			s.NewProcess(vkit.Mode{}, true)
+			t = vkit.NewT("TestY")
+			res = s.Step(t, op2, vkit.Mode{})
+			s.EndExec(t)
+			if res.Got != vkit.Passed {
+				c.Violate("yaml-replay-after-update-failed", "", fmt.Sprintf("outcome %s: %s", res.Got, firstErr(res.Signals)), in)
+				return
+			}
+		}
 	}
 	for k := range cl {
 		c.Count("class:"+k, 1)
